@@ -416,7 +416,7 @@ class TailSimplifyDown(HeadSimplifyDown):
 
     def concrete_inputs(self):
         for prog in ("add_cols", "add_scalar", "add_reduction", "filtered_plus_unfiltered", "tail_of_tail", "assign"):
-            for n in (2, 3):
+            for n in (2, 3, 5):
                 yield {"program": prog, "n": n}
 
     def run_concrete(self, inputs):
